@@ -35,12 +35,15 @@ def derivative(poly: PolyLike, *diffvars: Union[ndpoly, str, int]) -> ndpoly:
 
     """
     poly = poly_ref = numpoly.aspolynomial(poly)
+    names = poly.names
 
     for diffvar in diffvars:
+        if isinstance(diffvar, int):
+            # a position counts in the indeterminants of the argument; the
+            # alignment after an earlier step may have put them in another order.
+            diffvar = names[diffvar]
         if isinstance(diffvar, str):
             idx = poly.names.index(diffvar)
-        elif isinstance(diffvar, int):
-            idx = diffvar
         else:
             diffvar = numpoly.aspolynomial(diffvar)
             # retained all-zero terms must not count as extra indeterminants
@@ -51,14 +54,14 @@ def derivative(poly: PolyLike, *diffvars: Union[ndpoly, str, int]) -> ndpoly:
             exponents = exponents[
                 [bool(numpy.any(coefficient)) for coefficient in coefficients]
             ]
-            exponents, names = numpoly.remove_redundant_names(
+            exponents, diffnames = numpoly.remove_redundant_names(
                 exponents, diffvar.names
             )
-            assert names is not None and len(names) == 1, "one at the time"
+            assert diffnames is not None and len(diffnames) == 1, "one at the time"
             assert len(exponents) == 1 and numpy.all(
                 exponents == 1
             ), "derivative variable assumes singletons"
-            idx = poly.names.index(names[0])
+            idx = poly.names.index(diffnames[0])
 
         exponents = poly.exponents
         # terms not involving the variable vanish; dropping them here
